@@ -7,6 +7,62 @@ From Coq Require Import ZifyBool ZifyN ZifyNat.
 Local Open Scope Z_scope.
 Ltac Zify.zify_post_hook ::= Z.to_euclidean_division_equations.
 
+(* days = era * 146097 + doe - 719468 as the library forms it: (era - 5) * 146097 + (doe + 11017), one era up when
+   era - 5 is negative; exact wherever the result is an int64, out_of_range otherwise *)
+Definition days_tail {A} (era doe : Z) (K : Z -> outcome A) : outcome A :=
+  se <- arith I64 (era - 5) ;;
+  sd <- arith I64 (cast I64 doe + 11017) ;;
+  days <- (if 0 <=? se then
+             lim <- cdiv I64 (tmax I64 - sd) 146097 ;;
+             if lim <? se then Err OutOfRange else
+             pr <- arith I64 (se * 146097) ;; arith I64 (pr + sd)
+           else
+             ue <- arith I64 (se + 1) ;;
+             dd <- arith I64 (sd - 146097) ;;
+             lim <- cdiv I64 (tmin I64 - (if dd <? 0 then dd else 0)) 146097 ;;
+             if ue <? lim then Err OutOfRange else
+             pr <- arith I64 (ue * 146097) ;; arith I64 (pr + dd)) ;;
+  K days.
+
+Lemma days_tail_spec {A} era doe (K : Z -> outcome A) :
+  -100000000000000000 <= era <= 100000000000000000 -> 0 <= doe <= 150000 ->
+  days_tail era doe K =
+  if (era * 146097 + (doe - 719468) <? -9223372036854775808) || (9223372036854775807 <? era * 146097 + (doe - 719468))
+  then Err OutOfRange else K (era * 146097 + (doe - 719468)).
+Proof.
+  intros He Hd. unfold days_tail, cdiv. change (146097 =? 0) with false. cbv iota.
+  change (tmax I64) with 9223372036854775807. change (tmin I64) with (-9223372036854775808).
+  rewrite (cast_fits I64 doe) by fits_side.
+  rewrite (arith_fits I64 (era - 5)) by fits_side. rewrite bind_ok.
+  rewrite (arith_fits I64 (doe + 11017)) by fits_side. rewrite bind_ok.
+  set (se := era - 5) in *. set (sd := doe + 11017) in *.
+  assert (ED : era * 146097 + (doe - 719468) = se * 146097 + sd) by (unfold se, sd; lia).
+  rewrite ED. clear ED. assert (Hsd : 11017 <= sd <= 161017) by (unfold sd; lia).
+  assert (Hse : -100000000000000005 <= se <= 100000000000000000) by (unfold se; lia).
+  clearbody se sd. clear He Hd.
+  destruct (Z.leb_spec 0 se) as [Hp|Hn].
+  - rewrite Z.quot_div_nonneg by lia.
+    rewrite (arith_fits I64 ((9223372036854775807 - sd) / 146097)) by fits_side. rewrite bind_ok.
+    destruct (Z.ltb_spec ((9223372036854775807 - sd) / 146097) se) as [Hl|Hl].
+    + replace ((se * 146097 + sd <? -9223372036854775808) || (9223372036854775807 <? se * 146097 + sd)) with true by lia.
+      reflexivity.
+    + replace ((se * 146097 + sd <? -9223372036854775808) || (9223372036854775807 <? se * 146097 + sd)) with false by lia.
+      rewrite (arith_fits I64 (se * 146097)) by fits_side. rewrite bind_ok.
+      rewrite arith_fits by fits_side. rewrite bind_ok. reflexivity.
+  - rewrite (arith_fits I64 (se + 1)) by fits_side. rewrite bind_ok.
+    rewrite (arith_fits I64 (sd - 146097)) by fits_side. rewrite bind_ok.
+    set (dd := sd - 146097) in *. set (lo := if dd <? 0 then dd else 0).
+    assert (Hlo : -135080 <= lo <= 0 /\ lo <= dd /\ (dd < 0 -> lo = dd) /\ (0 <= dd -> lo = 0)) by (unfold lo, dd; destruct (Z.ltb_spec (sd - 146097) 0); lia).
+    clearbody lo.
+    rewrite (arith_fits I64 (Z.quot (-9223372036854775808 - lo) 146097)) by fits_side. rewrite bind_ok.
+    destruct (Z.ltb_spec (se + 1) (Z.quot (-9223372036854775808 - lo) 146097)) as [Hl|Hl].
+    + replace ((se * 146097 + sd <? -9223372036854775808) || (9223372036854775807 <? se * 146097 + sd)) with true by (unfold dd in *; lia).
+      reflexivity.
+    + replace ((se * 146097 + sd <? -9223372036854775808) || (9223372036854775807 <? se * 146097 + sd)) with false by (unfold dd in *; lia).
+      rewrite (arith_fits I64 ((se + 1) * 146097)) by (unfold dd in *; fits_side). rewrite bind_ok.
+      rewrite arith_fits by (unfold dd in *; fits_side). rewrite bind_ok. f_equal. unfold dd. lia.
+Qed.
+
 (* the date part of tp_of_parts, as a function of its continuation *)
 Definition date_steps {A} (year mo day : Z) (K : Z -> outcome A) : outcome A :=
   if year <? tmin I64 + 400 then Err OutOfRange else
@@ -21,23 +77,16 @@ Definition date_steps {A} (year mo day : Z) (K : Z -> outcome A) : outcome A :=
   let mm := if 2 <? m then cast U32 (m - 3) else cast U32 (m + 9) in
   let doy := cast U32 (cast U32 (cast U32 (cast U32 (153 * mm) + 2) / 5 + d) - 1) in
   let doe := cast U32 (cast U32 (cast U32 (yoe * 365) + yoe / 4) - yoe / 100 + doy) in
-  hi <- cdiv I64 (tmax I64) 146097 ;;
-  lo <- cdiv I64 (tmin I64) 146097 ;;
-  if (hi <? era) || (era <? lo) then Err OutOfRange else
-  off <- arith I32 (cast I32 doe - 719468) ;;
-  e1 <- arith I64 (era * 146097) ;;
-  lim <- arith I64 (tmin I64 - off) ;;
-  if (off <? 0) && (e1 <? lim) then Err OutOfRange else
-  days <- arith I64 (e1 + off) ;;
-  K days.
+  days_tail era doe K.
 
-(* for every date whose day number fits int64 with the 719468 days of head room the era guard needs *)
-Lemma date_steps_ok {A} y m d (K : Z -> outcome A) :
+(* the day number exactly, or out_of_range when it is not an int64 *)
+Lemma date_steps_exact {A} y m d (K : Z -> outcome A) :
   -30000000000000000 <= y <= 30000000000000000 -> 1 <= m <= 12 -> 1 <= d <= 31 ->
-  -9223372036854775808 <= days_from_civil y m d <= 9223372036854775807 - 719468 ->
-  date_steps y m d K = K (days_from_civil y m d).
+  date_steps y m d K =
+  if (days_from_civil y m d <? -9223372036854775808) || (9223372036854775807 <? days_from_civil y m d)
+  then Err OutOfRange else K (days_from_civil y m d).
 Proof.
-  intros Hy Hm Hd HD. unfold date_steps. cbv zeta.
+  intros Hy Hm Hd. unfold date_steps. cbv zeta.
   change (tmin I64 + 400) with (-9223372036854775408). replace (y <? -9223372036854775408) with false by lia.
   set (b := if m <=? 2 then 1 else 0). assert (Hb : 0 <= b <= 1) by (unfold b; destruct (m <=? 2); lia).
   rewrite arith_fits by fits_side. rewrite bind_ok.
@@ -57,15 +106,7 @@ Proof.
     let mm := if 2 <? m then cast U32 (m - 3) else cast U32 (m + 9) in
     let doy := cast U32 (cast U32 (cast U32 (cast U32 (153 * mm) + 2) / 5 + d) - 1) in
     let doe := cast U32 (cast U32 (cast U32 (yoe * 365) + yoe / 4) - yoe / 100 + doy) in
-    hi <- cdiv I64 (tmax I64) 146097 ;;
-    lo <- cdiv I64 (tmin I64) 146097 ;;
-    if (hi <? era0) || (era0 <? lo) then Err OutOfRange else
-    off <- arith I32 (cast I32 doe - 719468) ;;
-    e1 <- arith I64 (era0 * 146097) ;;
-    lim <- arith I64 (tmin I64 - off) ;;
-    if (off <? 0) && (e1 <? lim) then Err OutOfRange else
-    days <- arith I64 (e1 + off) ;;
-    K days).
+    days_tail era0 doe K).
   { rewrite <- Eera. destruct (0 <=? y'); [reflexivity|]. destruct (arith I64 (y' - 399)); reflexivity. }
   rewrite bind_ok. cbv zeta.
   rewrite arith_fits by fits_side. rewrite bind_ok.
@@ -83,20 +124,19 @@ Proof.
   assert (Edoe : doe_of y' era m d = doe).
   { unfold doe_of. cbv zeta. fold yoe. subst mm.
     rewrite !Z.quot_div_nonneg by (try destruct (2 <? m); lia). unfold doe. lia. }
-  rewrite Edoe in HDe. rewrite HDe in HD |- *.
-  clear Edoe HDe Eera. clearbody doe yoe.
-  unfold cdiv. change (146097 =? 0) with false. cbv iota.
-  change (tmax I64) with 9223372036854775807. change (tmin I64) with (-9223372036854775808).
-  rewrite (arith_fits I64 (Z.quot 9223372036854775807 146097)) by (vm_compute; reflexivity). rewrite bind_ok.
-  rewrite (arith_fits I64 (Z.quot (-9223372036854775808) 146097)) by (vm_compute; reflexivity). rewrite bind_ok.
-  change (Z.quot 9223372036854775807 146097) with 63131837319416. change (Z.quot (-9223372036854775808) 146097) with (-63131837319416).
-  replace ((63131837319416 <? era) || (era <? -63131837319416)) with false by lia.
-  rewrite (cast_fits I32 doe) by fits_side.
-  rewrite arith_fits by fits_side. rewrite bind_ok.
-  rewrite arith_fits by fits_side. rewrite bind_ok.
-  rewrite arith_fits by fits_side. rewrite bind_ok.
-  replace ((doe - 719468 <? 0) && (era * 146097 <? -9223372036854775808 - (doe - 719468))) with false by lia.
-  rewrite arith_fits by fits_side. rewrite bind_ok. reflexivity.
+  rewrite Edoe in HDe. rewrite HDe.
+  apply days_tail_spec; [unfold era; lia | lia].
+Qed.
+
+(* for every date whose day number fits int64 *)
+Lemma date_steps_ok {A} y m d (K : Z -> outcome A) :
+  -30000000000000000 <= y <= 30000000000000000 -> 1 <= m <= 12 -> 1 <= d <= 31 ->
+  -9223372036854775808 <= days_from_civil y m d <= 9223372036854775807 ->
+  date_steps y m d K = K (days_from_civil y m d).
+Proof.
+  intros Hy Hm Hd HD. rewrite date_steps_exact by assumption.
+  replace ((days_from_civil y m d <? -9223372036854775808) || (9223372036854775807 <? days_from_civil y m d)) with false by lia.
+  reflexivity.
 Qed.
 
 Lemma tp_of_parts_unfold P R u :
